@@ -220,7 +220,7 @@ def correspond_case(ck, op, call, sp, ans, stats):
                 else:
                     _cmp("output Var types", [[k, t] for k, t in zip(out_keys(cls, call), sp["types"])], exp, d)
     # the oracle's hand-built model is the model's `handModel`
-    if not ans["untyped"]:
+    if not ans["untyped"] and not call.get("sub"):
         try:
             om = L._model_json(L.oracle_model(op, call))
             d += compare_hand(om, ans["hand"])
@@ -349,6 +349,8 @@ def run(ck: core.Check):
             ck.broken("correspondence", "driver", f"{len(answers)} answers for {len(reqs)} requests")
         for (op, call, sp), ans in zip(pending, answers):
             correspond_case(ck, op, call, sp, ans, stats)
+        if ck.thorough and (lo // CH) % 10 == 9:
+            ck.log(f"... {lo + CH} calls")
         if len(ck.broken_items) > 60 and len(ck.failures) >= 5:
             ck.log("many mismatches and failures already - stopping the sweep early")
             break
@@ -389,7 +391,7 @@ def run(ck: core.Check):
     ck.assumptions += [
         "onnx.shape_inference.infer_shapes is invariant under injective renaming of value names and ignores graph inputs / initializers the node does not read (hypotheses InferOK of eager_agrees; observed by the oracle, which uses its own names and no extra inputs)",
         "an attribute left at its default denotes the same node whether omitted or written with the schema default (the oracle accepts either representative: ONNX's ArgMax/ArgMin inference treats them differently for rank-0 inputs)",
-        "If / Loop / Scan / SequenceMap (subgraph attributes) are not generated",
+        "If / Loop are generated with Identity bodies over outer-scope values; Scan / SequenceMap are not generated",
     ]
     ck.trusted_base += [
         "harness/lib_c05.py: schema-driven generator, capture of the inference request by wrapping onnx.shape_inference.infer_shapes and Node.inference, canonicalisation of TypeProtos",
